@@ -243,7 +243,7 @@ func c11Exh(s c11Spec, res *lib.Result) {
 				res.Violate("createsignature-error", err.Error())
 				return
 			}
-			pool := &lib.MemPool{Files: olds}
+			pool := &lib.MemPool{Files: olds, Cache: true}
 			for ni, nd := range news {
 				for pref := int64(-1); pref < int64(s.NOld); pref++ {
 					key, detail, nr, ndata := ck.run(olds, blib, nd, pref, pool, (ni+int(pref))%4 == 0)
@@ -397,7 +397,7 @@ func c11Rand(s c11Spec, res *lib.Result) {
 		return
 	}
 	pref := int64(r.Range(-1, nOld-1))
-	key, detail, nr, ndata := ck.run(olds, blib, nd, pref, &lib.MemPool{Files: olds}, true)
+	key, detail, nr, ndata := ck.run(olds, blib, nd, pref, &lib.MemPool{Files: olds, Cache: true}, true)
 	if key != "" {
 		res.Violate(key, fmt.Sprintf("shape=%s bs=%d newLen=%d (4MiB%+d) oldLens=%v preferred=%d seed=%d", s.Shape, bs, len(nd), len(nd)-M4, lens(olds), pref, s.Seed), detail)
 	}
@@ -450,7 +450,7 @@ func init() {
 	lib.Register(&lib.Property{
 		ID:          "C11",
 		Level:       "exploration",
-		Rule:        "every execution of the real CreateSignature+ComputeDiff is monitored: recorded operations are replayed by a reference replayer with explicit bounds checks and (every 4th exhaustive / every random case) by the real ApplySingle / ApplyPatch (alternating) over an in-memory pool; structural predicates (range inside the named file, merged ranges, data op <= 4 MiB, empty data only leading). Exhaustive sub-spaces, each enumerated completely for block sizes 1..4 and every preferred index: E1 one old file alphabet 2 |old|<=7 |new|<=9; E2 one old alphabet 3 |old|<=5 |new|<=7; E3 two old alphabet 2 |old|<=4 |new|<=9; E4 three old alphabet 2 |old|<=3 |new|<=8 (thorough adds E5 two old a2 |old|<=6 |new|<=9, E6 one old a3 |old|<=7 |new|<=8, E7 two old a3 |old|<=3 |new|<=7, E8 two old a2 |old|<=7 |new|<=8, E9 three old a2 |old|<=4 |new|<=8). Random large part: block sizes {1,2,3,7,64,1000,4096,65536}, new content > 4 MiB (up to 8 MiB+) in shapes nomatch / phases / wrapmatch / lowentropy / tailprefix / exact4m / fresh-tail. distinct_nontrivial = exhaustive executions whose op list has both a block range and a data op (distinct tuples by construction) + distinct random feature signatures",
+		Rule:        "every execution of the real CreateSignature+ComputeDiff is monitored: recorded operations are replayed by a reference replayer with explicit bounds checks and (every 4th exhaustive / every random case) by the real ApplySingle / ApplyPatch (alternating) over an in-memory pool that, like lake's fspool, hands its one cached reader back where it was left; structural predicates (range inside the named file, merged ranges, data op <= 4 MiB, empty data only leading). Exhaustive sub-spaces, each enumerated completely for block sizes 1..4 and every preferred index: E1 one old file alphabet 2 |old|<=7 |new|<=9; E2 one old alphabet 3 |old|<=5 |new|<=7; E3 two old alphabet 2 |old|<=4 |new|<=9; E4 three old alphabet 2 |old|<=3 |new|<=8 (thorough adds E5 two old a2 |old|<=6 |new|<=9, E6 one old a3 |old|<=7 |new|<=8, E7 two old a3 |old|<=3 |new|<=7, E8 two old a2 |old|<=7 |new|<=8, E9 three old a2 |old|<=4 |new|<=8). Random large part: block sizes {1,2,3,7,64,1000,4096,65536}, new content > 4 MiB (up to 8 MiB+) in shapes nomatch / phases / wrapmatch / lowentropy / tailprefix / exact4m / fresh-tail. distinct_nontrivial = exhaustive executions whose op list has both a block range and a data op (distinct tuples by construction) + distinct random feature signatures",
 		Assumptions: []string{"the property's full small-scope statement (three files of length <= 7 over 3 symbols) is > 10^16 cases and is NOT enumerated; exhaustive=true refers to the listed sub-spaces only"},
 		Cases:       c11Cases,
 		Run:         c11Run,
